@@ -168,6 +168,12 @@ def run(tier, seed, replay=None):
                 rep.broken.append(f"instance of C10_bound_roundtrip false in the executable model: {case}")
             if v[3] != "1" and case[4] == "in-image" and any(val != ("id",) for val in subs[1].values()):
                 rep.count("in-image-but-untouched-fails")
+        if len(v) > 5:
+            # C10_bound_exact / C10_bound_count hold without hypothesis: the model's output is exactly the set the declarative
+            # specification `IsReexpr_rx` describes, once each
+            rep.count("theorem-instances-checked:C10_bound_exact")
+            if v[5] != "1":
+                rep.broken.append(f"instance of C10_bound_exact / C10_bound_count false in the executable model: {case}")
         sig = subs[1]
         nontriv = any(val != ("id",) for val in sig.values())
         rep.case(case, nontriv, sample={"a": case[0], "b": case[1], "bounded": case[2], "trait": case[3], "class": case[4],
